@@ -176,9 +176,11 @@ def run_history(ctx, cid, P):
         ctx.sample(W)
 
 
-def full_connection(ctx, rng, servers, stored, W):
+def full_connection(ctx, rng, servers, stored, W, force=None):
     ver = rng.choice(VERS)
     sname = rng.choice("AAB")
+    if force:
+        ver, sname = force["ver"], force["server"]
     srv = servers[sname]
     ckey = rng.choice([None, None, "rsa", "ecdsa"])
     sni = rng.choice([None, "example.com", "other.example"])
@@ -233,7 +235,7 @@ def full_connection(ctx, rng, servers, stored, W):
                            r.session.tls_1_0_tickets), len(r.sid)])
 
 
-def resume_attempt(ctx, rng, servers, stored, W, r):
+def resume_attempt(ctx, rng, servers, stored, W, r, force=None):
     now = boot.vclock.now
     sess = r.session
     ver = r.ver
@@ -244,6 +246,8 @@ def resume_attempt(ctx, rng, servers, stored, W, r):
                          "drop_etm", "sni", "suites", "lower_version"])
     to = r.server if rng.random() < 0.8 else ("B" if r.server == "A"
                                               else "A")
+    if force:
+        tamper, change, to = "none", "none", r.server
     srv = servers[to]
     # a client that ignores local invalidation keeps offering
     s2 = copy.copy(sess)
@@ -614,7 +618,43 @@ def suite_is_cbc(sid):
     return su is not None and su.cipher_kind == "cbc"
 
 
+def run_wrap(ctx, cid, P):
+    """the session-ID cache is a ring: fill it past its capacity, let the
+    age limit pass, and offer the newest session - expired is expired
+    wherever the ring's indices stand"""
+    rng = ctx.rng
+    boot.install_vclock(1_800_000_000.0)
+    srv = Server("A", "cache", rng)
+    srv.max_entries = P["cap"]
+    srv.cache = SessionCache(maxEntries=P["cap"], maxAge=MAXAGE)
+    servers = {"A": srv, "B": Server("B", "both", rng)}
+    stored = []
+    W = {"case": cid, "steps": []}
+    ver = tuple(P["ver"])
+    for i in range(P["cap"] + P["extra"]):
+        boot.vclock.advance(P["gap"])
+        full_connection(ctx, rng, servers, stored, W,
+                        force={"ver": ver, "server": "A"})
+    live = [r for r in stored if r.session is not None and
+            r.closed_how == "clean"]
+    if not live:
+        ctx.count("wrap_nothing_clean")
+        return
+    ctx.count("wrap_histories")
+    boot.vclock.advance(P["wait"])
+    # newest first: the one least likely to have been evicted
+    for r in reversed(live[-3:]):
+        resume_attempt(ctx, rng, servers, stored, W, r, force=True)
+
+
 def make_cases(ctx):
+    for cap in (3, 4):
+        for extra in (0, 1, 2, 5):
+            for ver in ((3, 1), (3, 3)):
+                for wait in (MAXAGE + 1, MAXAGE - 600, 10):
+                    yield "wrap-%d-%d-%d-%d" % (cap, extra, ver[1], wait), \
+                        dict(wrap=True, cap=cap, extra=extra, ver=ver,
+                             wait=wait, gap=7)
     for i in range(ctx.pick(600, 30000)):
         yield "h%d" % i, {}
 
@@ -622,7 +662,10 @@ def make_cases(ctx):
 def run(ctx):
     for cid, P in ctx.cases(make_cases(ctx)):
         try:
-            run_history(ctx, cid, P)
+            if P.get("wrap"):
+                run_wrap(ctx, cid, P)
+            else:
+                run_history(ctx, cid, P)
         finally:
             boot.uninstall_vclock()
 
